@@ -13,6 +13,9 @@ type Parser struct {
 
 	unsupported bool
 
+	// sections holds the clause keywords already seen in an update expression
+	sections map[TokenType]bool
+
 	prefixParseFns map[TokenType]prefixParseFn
 	infixParseFns  map[TokenType]infixParseFn
 }
@@ -399,6 +402,19 @@ func (p *Parser) parseAction(token Token) *ActionExpression {
 func (p *Parser) parseActions(token Token) []Expression {
 	actions := []Expression{}
 
+	// each clause keyword opens one section of the expression
+	if p.sections == nil {
+		p.sections = map[TokenType]bool{}
+	}
+
+	if p.sections[token.Type] {
+		p.errors = append(p.errors, fmt.Sprintf("the %s section can only be used once in an update expression", token.Type))
+
+		return nil
+	}
+
+	p.sections[token.Type] = true
+
 	if p.peekTokenIs(EOF) {
 		return actions
 	}
@@ -420,8 +436,14 @@ func (p *Parser) parseActions(token Token) []Expression {
 
 		p.nextToken()
 
+		section := p.curToken
+
 		otherUpdate := p.parseUpdateActionExpression()
 		if updateExpression, ok := otherUpdate.(*UpdateExpression); ok {
+			if len(updateExpression.Expressions) == 0 && len(p.errors) == 0 {
+				p.errors = append(p.errors, fmt.Sprintf("%s expression must have at least one action", section.Type))
+			}
+
 			actions = append(actions, updateExpression.Expressions...)
 		}
 	}
